@@ -1,15 +1,18 @@
 #!/usr/bin/env python3
 """soundness sweep of the bounded stand-in: every family, many seeds, on the UNCHANGED tree; any disagreement is a defect of the reference or of the crate (to be triaged), never expected.
-usage: tools/sweep.py [seeds=20] [budget_ms=6000]"""
+usage: tools/sweep.py [seeds=20] [budget_ms=6000] [first_seed=1] [always]   (always: only the families that run on every quick check)"""
 import os, sys, json, subprocess
 sys.path.insert(0, os.path.dirname(os.path.abspath(__file__)))
 import searcher
 n = int(sys.argv[1]) if len(sys.argv) > 1 else 20
 budget = sys.argv[2] if len(sys.argv) > 2 else '6000'
 exe = searcher.build(os.environ.get('VERIF_REPO', '/repo'))
+first = int(sys.argv[3]) if len(sys.argv) > 3 else 1
 fams = sorted({f for v in searcher.FAMILIES.values() for f in v} - {'large'})
+if len(sys.argv) > 4 and sys.argv[4] == 'always':
+    fams = ['stream', 'lookahead', 'la_compete', 'finite', 'regex', 'cache', 'unsupported']
 bad = 0
-for seed in range(1, n + 1):
+for seed in range(first, first + n):
     for f in fams:
         r = subprocess.run([exe, f, str(seed), budget], stdout=subprocess.PIPE, stderr=subprocess.PIPE, text=True)
         try:
